@@ -14,17 +14,7 @@ LEVEL = "model_checking"
 
 
 def check_records(R, obs, name):
-    bad_all = []
-    shard = 60000
-    for s in range(0, len(obs), shard):
-        part = obs[s:s + shard]
-        path = R.path("obs", "%s-%d.ndjson" % (name, s))
-        vlib.write_ndjson(path, part)
-        res = R.tlc("SplitCheck", "INIT Init\nNEXT Next\nINVARIANT Chk\n", env={"VERIF_OBS": path},
-                    name="%s-check%d" % (name, s), workers=1, timeout=3000)
-        if res.distinct != len(part):
-            raise vlib.MachineryError("SplitCheck visited %d of %d records" % (res.distinct, len(part)))
-        bad_all += [s + p[1] - 1 for p in res.prints if p and p[0] == "MISMATCH"]
+    bad_all = [s + p[1] - 1 for s, p in R.pvalidate("SplitCheck", obs, 8000, name) if p[0] == "MISMATCH"]
     return sorted(bad_all)
 
 
